@@ -136,6 +136,7 @@ class Interp:
         self.on_assign = []      # hooks(interp, frame, bb, stmt, st, val)
         self.on_return = []      # hooks(interp, frame, st, val)
         self.def_cache = {}
+        self.source_calls = False   # set by the totality rules: ghost count of items taken from abstract sources (L4)
         self.on_block = []       # hooks(interp, frame, bb, st): at the start of every basic block
         self.join_exits = join_exits or (lambda body: False)
         self.stack = []          # def names of active frames
@@ -376,12 +377,35 @@ class Interp:
                 steps = steps + (("ix", off),)
             elif k == "cindex":
                 if e["from_end"]:
-                    raise Unsupported("cindex from end")
-                off = Lin.const(e["off"])
-                if sl is not None:
-                    off = off + sl[0]
-                    sl = None
+                    # element `len - off` (slice patterns such as [.., last])
+                    if sl is None:
+                        base = self.read_raw(st, root, steps)
+                        if not isinstance(base, VArr):
+                            raise Unsupported("cindex from end of %r" % (base,))
+                        off = Lin.const(len(base.elems) - e["off"])
+                    else:
+                        off = sl[0] + sl[1] - e["off"]
+                        sl = None
+                else:
+                    off = Lin.const(e["off"])
+                    if sl is not None:
+                        off = off + sl[0]
+                        sl = None
                 steps = steps + (("ix", off),)
+            elif k == "subslice":
+                # slice patterns `[a, rest @ ..]`: [from .. len - to] (from_end) or [from .. to]
+                if sl is None:
+                    base = self.read_raw(st, root, steps)
+                    if isinstance(base, VArr):
+                        sl = (Lin.const(0), Lin.const(len(base.elems)))
+                    elif isinstance(base, VArrS):
+                        sl = (Lin.const(0), base.n)
+                    else:
+                        raise Unsupported("subslice of %r" % (base,))
+                if e["from_end"]:
+                    sl = (sl[0] + e["from"], sl[1] - e["from"] - e["to"])
+                else:
+                    sl = (sl[0] + e["from"], Lin.const(e["to"] - e["from"]))
             else:
                 raise Unsupported("projection " + k)
         return Addr(root, steps, sl)
@@ -596,6 +620,24 @@ class Interp:
                     return TRUE if c["v"] else FALSE
                 return cint(c["v"], ty["w"], ty["sg"])
             raise Unsupported("type-level const " + str(c))
+        if "destructured" in o:
+            v = self.value_of_destructured(o["destructured"])
+            if v is not None:
+                return v
+        if "uneval" in o and "promoted" not in o:
+            cb = getattr(self.f, "consts", {}).get(o["uneval"])
+            if cb is not None:
+                env = self.env_for(cb, o.get("uargs", []), frame.env)
+                self.fid += 1
+                fr = Frame(self.fid, cb, env, frame.depth + 1, None)
+                for i in range(len(cb["locals"])):
+                    st.mem[("L", fr.fid, i)] = None
+                outs = self.run_body_frames(fr, st)
+                if len(outs) == 1 and outs[0][0] is st:
+                    for i in range(len(cb["locals"])):
+                        st.mem.pop(("L", fr.fid, i), None)
+                    return outs[0][1]
+                raise Unsupported("const item %s does not evaluate on a single path" % o["uneval"])
         if "promoted" in o:
             pb = self.f.promoted.get((o["uneval"], o["promoted"]))
             if pb is None:
@@ -632,6 +674,35 @@ class Interp:
                     return VAgg("struct", d, ())
             return VOpq(ty, "zst")
         return VOpq(ty, "const:" + o.get("s", ""))
+
+    def value_of_destructured(self, d):
+        """abstract value of a compile-time constant of aggregate type (as destructured by the compiler)"""
+        ty = d["ty"]
+        k = ty.get("k")
+        if "v" in d:
+            if k == "bool":
+                return TRUE if d["v"] else FALSE
+            if k == "int":
+                return cint(d["v"], ty["w"], ty["sg"])
+            if k == "char":
+                return cint(d["v"], 32, False)
+            return None
+        fs = [self.value_of_destructured(x) for x in d.get("fields", [])]
+        if any(x is None for x in fs):
+            return None
+        if k == "tuple":
+            return VAgg("tuple", None, fs) if fs else UNIT
+        if k == "array":
+            return VArr(fs)
+        if k == "adt":
+            adt = self.f.adts.get(ty["def"])
+            if adt is None:
+                return None
+            if adt.get("kind") == "enum" or "variant" in d and len(adt["variants"]) > 1:
+                v = d.get("variant", 0)
+                return VEnum(ty["def"], Lin.const(v), {v: tuple(fs)})
+            return VAgg("struct", ty["def"], fs)
+        return None
 
     def run_promoted(self, frame, pb, st):
         """evaluate a promoted constant body (straight-line); its locals are never freed"""
@@ -1118,6 +1189,8 @@ class Interp:
             outs = self.dispatch(frame, bb, st, callee, args, dest_ty)
             for h in self.on_call_result:
                 h(self, frame, bb, t, callee, args, outs)
+            if self.source_calls and self.is_source_call(callee):
+                outs = self.note_source_call(callee, outs)
         res = []
         for s2, val in outs:
             if t["target"] is None:
@@ -1282,7 +1355,13 @@ class Interp:
         if isinstance(fv, VRef):
             fv = self.read_raw(st, fv.root, fv.steps)
         if isinstance(fv, VFn):
-            return self.dispatch(frame, bb, st, fv.callee, args, dest_ty)
+            t_ = frame.body["blocks"][bb]["term"] if frame is not None and bb is not None else None
+            for h in self.on_call:
+                h(self, frame, bb, t_, st, fv.callee, args)
+            outs = self.dispatch(frame, bb, st, fv.callee, args, dest_ty)
+            for h in self.on_call_result:
+                h(self, frame, bb, t_, fv.callee, args, outs)
+            return outs
         if isinstance(fv, VClos):
             body = self.f.bodies.get(fv.defn)
             if body is None:
@@ -1350,7 +1429,13 @@ class Interp:
             for h in self.on_return:
                 h(self, fr, s2, val)
             res.append((s2, val))
-        if (len(res) > 1 or self.sum_stack) and (self.join_exits(body) or len(res) > self.join_threshold):
+        thr = self.join_threshold
+        if self.ts is not None and not self.join_exits(body) and (body.get("impl_self_ty") or {}).get("def") in getattr(self.ts, "ts_types", ()) \
+                and body.get("vis") != "pub" and not body.get("impl_trait"):
+            # a private method of a stateful type is a piece of one of its interface methods (e.g. one arm of the state
+            # machine moved into its own function): its paths stay apart like the paths of the arm would
+            thr = max(thr, 48)
+        if (len(res) > 1 or self.sum_stack) and (self.join_exits(body) or len(res) > thr):
             # a symbolic boolean result is split into its two truth values so that callers (and summaries)
             # keep the conditions under which it is true / false
             split = []
@@ -1400,13 +1485,35 @@ class Interp:
             return r
         return ()
 
+    def int_sig(self, st, v, depth=0):
+        """which integer components of a returned value are constants (and which constants): outcomes of a small pure helper
+        such as `(next_state, consumed)` are kept apart when they differ in their constant components"""
+        if depth > 2 or v is None:
+            return ()
+        if isinstance(v, VInt):
+            c = st.const_of(v.lin)
+            return (c if c is not None and -64 <= c <= 64 else "s",)
+        if isinstance(v, VAgg) and v.kind == "tuple" and len(v.elems) <= 4:
+            r = ()
+            for e in v.elems:
+                r = r + self.int_sig(st, e, depth + 1)
+            return r
+        return ()
+
     def join_outcomes(self, outs, mark, args=()):
         from .join import join_pair
         groups = {}
         order = []
         mrefs = [a for a in args if isinstance(a, VRef) and a.mut]
+        refined = {}
+        for s2, val in outs:
+            if isinstance(val, VAgg) and val.kind == "tuple":
+                refined[id(s2)] = self.int_sig(s2, val)
+        use_refined = 1 < len(set(refined.values())) <= 8
         for s2, val in outs:
             k = self.outcome_key(s2, val, 3)
+            if use_refined:
+                k = k + ("#",) + refined.get(id(s2), ())
             for a in mrefs:
                 try:
                     k = k + ("|",) + self.shape_sig(s2, self.read_raw(s2, a.root, a.steps))
@@ -1473,6 +1580,7 @@ class Interp:
 
     def run_loop(self, fr, head, st):
         lbody = self.loops(fr.body)[head]
+        st.ghost.pop("source-exhausted", None)
         # ---- 1. bounded unrolling (fully path-sensitive)
         mark = len(self.log)
         states = [st.copy()]
@@ -1508,20 +1616,21 @@ class Interp:
         sigstates = {}
         th = self.thresholds(fr.body)
 
-        def add(stt, widen):
+        def add(stt, widen, table=None, tag="loop"):
+            table = sigstates if table is None else table
             ch = False
             self.kill_dead(fr, head, stt)
             for s1 in self.ts_split(fr, stt):
                 sig = (self.ts_sig(fr, s1), self.flag_sig(fr, head, s1))
-                old = sigstates.get(sig)
+                old = table.get(sig)
                 if old is None:
-                    sigstates[sig] = s1
+                    table[sig] = s1
                     ch = True
                 else:
-                    new, c = join_into(self, old, s1, symmark, ("loop", fr.fid, head, sig), widen=bool(widen),
+                    new, c = join_into(self, old, s1, symmark, (tag, fr.fid, head, sig), widen=bool(widen),
                                        thresholds=(th if widen == 1 else None))
                     if c:
-                        sigstates[sig] = new
+                        table[sig] = new
                         ch = True
             return ch
 
@@ -1538,7 +1647,8 @@ class Interp:
                 arrs.append((inv, r["arrive"]))
             for inv, arrive in arrs:
                 for a in arrive:
-                    if add(a, 0 if it < 2 else (1 if it < 5 else 2)):
+                    # widening is delayed: small counters that are reset inside the loop settle within a few plain joins
+                    if add(a, 0 if it < 4 else (1 if it < 7 else 2)):
                         changed = True
             if not changed:
                 ms = [self.loop_measure(fr, inv, arrive) for inv, arrive in arrs]
@@ -1697,10 +1807,51 @@ class Interp:
             self._thresholds[key] = th
         return th
 
+    SOURCE_METHODS = (("std::iter::Iterator", "next"), ("util::ByteSource", "read_byte"))
+    G_SRC = ("G", "source-calls")
+
+    def is_source_call(self, callee):
+        """a call that takes one item from a caller-supplied (abstract) source"""
+        if (callee.get("trait"), callee.get("method")) not in self.SOURCE_METHODS:
+            return False
+        sty = callee.get("self_ty") or {}
+        return sty.get("k") in ("param", "alias", "other", "deep") or (sty.get("k") == "ref" and (sty.get("to") or {}).get("k") in ("param", "alias"))
+
+    def note_source_call(self, callee, outs):
+        """ghost bookkeeping for the termination argument L4: count the items taken from abstract sources and mark the paths on
+        which the source reported exhaustion (None / Err)"""
+        from .stdsum import split_enum
+        exhausted = 0 if callee.get("method") == "next" else 1
+        res = []
+        for (s2, val) in outs:
+            if not isinstance(val, VEnum):
+                res.append((s2, val))
+                continue
+            cur = s2.mem.get(self.G_SRC)
+            base = cur.lin if isinstance(cur, VInt) else Lin.const(0)
+            for s3, var, pay in split_enum(self, s2, val, "source item"):
+                s3.mem[self.G_SRC] = VInt(base + 1, 64, False)
+                if var == exhausted:
+                    s3.ghost["source-exhausted"] = 1
+                res.append((s3, VEnum(val.defn, Lin.const(var), {var: pay})))
+        return res
+
     def loop_measure(self, fr, inv, arrivals):
-        """a frame local holding a slice whose length provably shrinks by >= 1 on every back edge (L3)"""
+        """a frame local holding a slice whose length provably shrinks by >= 1 on every back edge (L3), or: every back edge
+        has taken at least one item from a caller-supplied source and no path on which the source was exhausted comes back (L4)"""
         if not arrivals:
             return "no-back-edge"
+        if self.source_calls:
+            g0 = inv.mem.get(self.G_SRC)
+            base = g0.lin if isinstance(g0, VInt) else Lin.const(0)
+            ok = True
+            for a in arrivals:
+                g1 = a.mem.get(self.G_SRC)
+                if a.ghost.get("source-exhausted") or not isinstance(g1, VInt) or not a.prove_ge0(g1.lin - base - 1):
+                    ok = False
+                    break
+            if ok:
+                return "source-item-consumed"
         for i in range(len(fr.body["locals"])):
             v = inv.mem.get(("L", fr.fid, i))
             if not isinstance(v, VSlice):
